@@ -316,26 +316,36 @@ def strDecimalPrefix (rs : List Nat) : Option (FV × List Nat) :=
 
 def hexValNat (ds : List Nat) : Nat := ds.foldl (fun n c => n * 16 + hexVal c) 0
 
-/-- §9.3.1 ToNumber(String) -/
-def stringToNumber (s : Str) : FV :=
-  let rs := stripBoth (runes s)
-  if rs.isEmpty then zero
-  else match rs with
-    | 48 :: x :: hs =>
-      if (x = 120 ∨ x = 88) then
-        (if !hs.isEmpty ∧ hs.all isHexDigit then ofRatParts false (hexValNat hs) 1 else .nan)
-      else match strDecimalPrefix rs with
-        | some (v, []) => v
-        | _ => .nan
-    | _ => match strDecimalPrefix rs with
-      | some (v, []) => v
-      | _ => .nan
+/-- HexIntegerLiteral ::: 0x HexDigit+ | 0X HexDigit+ (the whole text) -/
+def isHexIntegerLiteral (rs : List Nat) : Bool :=
+  match rs with
+  | 48 :: x :: hs => (x = 120 ∨ x = 88) && !hs.isEmpty && hs.all isHexDigit
+  | _ => false
 
-/-- §15.1.2.3 parseFloat -/
-def parseFloat (s : Str) : FV :=
-  match strDecimalPrefix (stripLeft (runes s)) with
+/-- the text is a StrDecimalLiteral: its value; otherwise NaN -/
+def decimalLiteralValue (rs : List Nat) : FV :=
+  match strDecimalPrefix rs with
+  | some (v, []) => v
+  | _ => .nan
+
+/-- §9.3.1 ToNumber(String) after StrWhiteSpace has been stripped on both sides: +0 for the empty text,
+    the (correctly rounded) MV of a StrNumericLiteral, NaN for anything else -/
+def stringToNumberBody (rs : List Nat) : FV :=
+  if rs.isEmpty then zero
+  else if isHexIntegerLiteral rs then ofInt (hexValNat (rs.drop 2))
+  else decimalLiteralValue rs
+
+/-- §9.3.1 ToNumber(String) -/
+def stringToNumber (s : Str) : FV := stringToNumberBody (stripBoth (runes s))
+
+/-- §15.1.2.3 parseFloat on the text with leading white space stripped -/
+def parseFloatBody (rs : List Nat) : FV :=
+  match strDecimalPrefix rs with
   | some (v, _) => v
   | none => .nan
+
+/-- §15.1.2.3 parseFloat -/
+def parseFloat (s : Str) : FV := parseFloatBody (stripLeft (runes s))
 
 /-- §15.1.2.2 steps 3–5: the sign -/
 def signOf (rs : List Nat) : Bool × List Nat :=
@@ -401,37 +411,34 @@ def literalValue (s : Str) : Option FV :=
 /-! ### deviation regions: decidable predicates over the REQUEST (never model ≠ spec) -/
 namespace Dev
 
-/-- otto's exponential/fixed decision `lg ≥ 21 ∨ lg < -6` agrees with §9.8.1's `n > 21 ∨ n ≤ -6` -/
-def sideOK (lg : FV) (n : Int) : Bool :=
-  (le (ofInt 21) lg || lt lg (ofInt (-6))) == decide (n > 21 ∨ n ≤ -6)
+/-- otto's exponential/fixed decision `|x| >= 1e21 || |x| < 1e-6` agrees with §9.8.1's `n > 21 ∨ n ≤ -6`
+    for the digits `(…, n)` generated for x (a consistency condition between a value and its digits) -/
+def sideOK (x : FV) (n : Int) : Bool :=
+  (le f1e21 (abs x) || lt (abs x) f1em6) == decide (n > 21 ∨ n ≤ -6)
 
-/-- the hypotheses the layout theorems make about generated digits (`Thm.WFDec`), as a Bool: checked on
-    every sample; a failure would show up as the unlisted region `digits_wf` -/
+/-- the hypotheses the layout theorems make about generated digits (`Thm.WFDec`, `sideOK`), as a Bool:
+    checked on every sample; a failure would show up as the unlisted region `digits_wf` -/
 def wfDec (d : Dec) : Bool :=
   !d.ds.isEmpty && d.ds.all (· < 10) && decide (-999 < d.dp ∧ d.dp < 1000)
 
-def toStr (x lg : FV) : List String :=
+def toStr (x : FV) : List String :=
   match x with
   | .fin _ m e =>
     if m = 0 then [] else
-    (if !wfDec (shortestDigits m e) then ["digits_wf"] else []) ++
-    (if !sideOK lg (shortestDigits m e).dp then ["toString_threshold"] else [])
+    (if !wfDec (shortestDigits m e) ∨ !sideOK x (shortestDigits m e).dp then ["digits_wf"] else [])
   | _ => []
 
 /-- a/b lies exactly half way between two integers -/
 def isTie (a b : Nat) : Bool := 2 * (a % b) = b
 
-def fixed (x lg : FV) (a : Arg) : List String :=
+def fixed (x : FV) (a : Arg) : List String :=
   let f := argInt a
   if ltI f 0 ∨ gtI f 20 then [] else
   match x with
-  | .fin s m e =>
+  | .fin _ m e =>
     let (num, den) := ratOf m e
-    (if le (ofRatParts false (10 ^ 21) 1) (abs x) != decide (num ≥ 10 ^ 21 * den) then ["f64_le_mismatch"] else []) ++
-    if num ≥ 10 ^ 21 * den then toStr x lg
-    else
-      (if s ∧ m = 0 then ["toFixed_negzero"] else []) ++
-      (if isTie (num * 10 ^ (intOf f).toNat) den then ["toFixed_tie"] else [])
+    (if le f1e21 (abs x) != decide (num ≥ 10 ^ 21 * den) then ["f64_le_mismatch"] else []) ++
+    (if num ≥ 10 ^ 21 * den then toStr x else [])
   | _ => []
 
 /-- is the n-significant-digit rounding of m·2^e an exact tie? -/
@@ -443,9 +450,7 @@ def sigTie (m : Nat) (e : Int) (n : Nat) : Bool :=
 def exp (x : FV) (a : Arg) : List String :=
   let f := argInt a
   match x with
-  | .nan => []
-  | .inf _ => ["toExponential_inf"]
-  | .fin s m e =>
+  | .fin _ m e =>
     if a.isDefined ∧ (ltI f 0 ∨ gtI f 20) then []
     else
       let ex : Int :=
@@ -454,112 +459,46 @@ def exp (x : FV) (a : Arg) : List String :=
         else (shortestDigits m e).dp - 1
       (if m ≠ 0 ∧ a.isDefined ∧ (sigRoundUp m e ((intOf f).toNat + 1)).1.length ≠ (intOf f).toNat + 1 then ["digits_wf"] else []) ++
       (if m ≠ 0 ∧ !a.isDefined ∧ !wfDec (shortestDigits m e) then ["digits_wf"] else []) ++
-      (if s ∧ m = 0 then ["toExponential_negzero"] else []) ++
       (if ex.natAbs < 10 then ["toExponential_exp2"] else []) ++
       (if m ≠ 0 ∧ a.isDefined ∧ sigTie m e ((intOf f).toNat + 1) then ["toExponential_tie"] else [])
+  | _ => []
 
-def prec (x lg : FV) (a : Arg) : List String :=
+def prec (x : FV) (a : Arg) : List String :=
   match a with
-  | .undef => toStr x lg
+  | .undef => toStr x
   | .num v =>
     let pI := toInteger v
     match x with
-    | .nan => []
-    | .inf _ => ["toPrecision_inf"]
-    | .fin s m e =>
+    | .fin _ m e =>
       if ltI pI 1 ∨ gtI pI 21 then []
       else
         let p := (intOf pI).toNat
         let (ds, ex) : List Nat × Int := if m = 0 then (List.replicate p 0, 0) else sigRoundUp m e p
         (if ds.length ≠ p then ["digits_wf"] else []) ++
-        (if s ∧ m = 0 then ["toPrecision_negzero"] else []) ++
         (if p > 1 ∧ ds.getLast? = some 0 then ["toPrecision_zeros"] else []) ++
         (if (ex < -6 ∨ ex ≥ p) ∧ ex.natAbs < 10 then ["toPrecision_exp2"] else []) ++
         (if ex = -5 ∨ ex = -6 then ["toPrecision_small"] else []) ++
         (if m ≠ 0 ∧ sigTie m e p then ["toPrecision_tie"] else [])
+    | _ => []
 
-def radix (x lg : FV) (a : Arg) : List String :=
+def radix (x : FV) (a : Arg) : List String :=
   let r := match a with | .undef => ofInt 10 | .num v => toInteger v
   if ltI r 2 ∨ gtI r 36 then []
-  else if intOf r = 10 then toStr x lg
+  else if intOf r = 10 then toStr x
   else match x with
     | .fin _ m e =>
       if m = 0 then []
       else if !isIntegral m e then ["radix_fraction"]
-      else if truncAbs m e ≥ 2 ^ 63 then ["radix_big"]
       else []
     | _ => []
 
-def lowerAscii (c : Nat) : Nat := if 65 ≤ c ∧ c ≤ 90 then c + 32 else c
-def sInf3 : Str := [105, 110, 102]
-def sInfinityLower : Str := sInfinity.map lowerAscii
-
-def unsign (rs : List Nat) : List Nat :=
-  match rs with
-  | 43 :: t => t
-  | 45 :: t => t
-  | _ => rs
-
-def num (s : Str) : List String :=
-  let t := stripBoth (runes s)
-  let body := unsign t
-  let lb := body.map lowerAscii
-  (if t.contains 95 then ["num_underscore"] else []) ++
-  (if (t.contains 120 ∨ t.contains 88) ∧ (t.contains 112 ∨ t.contains 80) then ["num_hexfloat"] else []) ++
-  (if (lb = sInf3 ∨ lb = sInfinityLower) ∧ body ≠ sInfinity then ["num_inf_spelling"] else []) ++
-  (match t with
-   | 48 :: x :: hs =>
-     if (x = 120 ∨ x = 88) ∧ !hs.isEmpty ∧ hs.all isHexDigit ∧ hexValNat hs ≥ 2 ^ 63 then ["num_hex_big"] else []
-   | _ => [])
-
-def pintBody (rs : List Nat) (r : Int) : List String :=
-  let neg := (signOf rs).1
-  let rs := (signOf rs).2
-  if r ≠ 0 ∧ (r < 2 ∨ r > 36) then [] else
-  let strip : Bool := r = 0 ∨ r = 16
-  let radix : Nat := if r = 0 then 10 else r.toNat
-  let radix' := (hexPrefix strip rs radix).2
-  let rs := (hexPrefix strip rs radix).1
-  let z := rs.takeWhile (fun c => digitValue c < radix')
-  if z.isEmpty then [] else
-  let mathInt := z.foldl (fun n c => n * radix' + digitValue c) 0
-  (if mathInt ≥ 2 ^ 63 then ["parseInt_big"] else []) ++
-  (if neg ∧ mathInt = 0 then ["parseInt_negzero"] else [])
-
-def pintCore (s : Str) (r : Int) : List String := pintBody (stripLeft (runes s)) r
-
-def pint (s : Str) (a : Arg) : List String :=
+/-- the radix argument of parseInt goes through ToInt32, whose deviation for |x| ≥ 2^63 is C05's -/
+def pint (a : Arg) : List String :=
   match a with
-  | .undef => pintCore s 0
+  | .undef => []
   | .num x =>
     let t := truncInt x
-    if -(2 ^ 63 : Int) ≤ t ∧ t < 2 ^ 63 then pintCore s (C05.Spec.toInt32 ⟨OttoVerif.PN.parseNumber⟩ (.f64 x))
-    else "toInt_big" :: pintCore s (C05.Spec.toInt32 ⟨OttoVerif.PN.parseNumber⟩ (.f64 x))
-
-def goFloatChar (c : Nat) : Bool :=
-  isHexDigit c ∨ c = 43 ∨ c = 45 ∨ c = 46 ∨ c = 95 ∨ c = 120 ∨ c = 88 ∨ c = 112 ∨ c = 80
-
-def pfloat (s : Str) : List String :=
-  let t := stripLeft (runes s)
-  let lt_ := t.map lowerAscii
-  let body := unsign t
-  let infOK : Bool := sInfinity.isPrefixOf body ∧ !isSub sInf3 ((body.drop 8).map lowerAscii)
-  let run := t.takeWhile goFloatChar
-  (if isSub sInf3 lt_ ∧ !infOK then ["parseFloat_inf"] else []) ++
-  (if run.any (fun c => c = 95 ∨ c = 120 ∨ c = 88 ∨ c = 112 ∨ c = 80) then ["parseFloat_goext"] else []) ++
-  (match strDecimalPrefix t with
-   | some (v, _) => (match unsignedDecPrefix body with
-      | some d => if !d.inf ∧ isInf v then ["parseFloat_overflow"] else []
-      | none => [])
-   | none => [])
-
-def lit (s : Str) : List String :=
-  match s with
-  | 48 :: x :: hs =>
-    if (x = 120 ∨ x = 88) ∧ !hs.isEmpty ∧ hs.all isHexDigit ∧ hexValNat hs ≥ 2 ^ 63 then ["lit_hex_big"]
-    else if (x :: hs).all isOctDigit ∧ (x :: hs).foldl (fun n c => n * 8 + (c - 48)) 0 ≥ 2 ^ 63 then ["lit_octal_big"]
-    else []
-  | _ => []
+    if -(2 ^ 63 : Int) ≤ t ∧ t < 2 ^ 63 then [] else ["toInt_big"]
 
 /-- ToString of an integer-kinded number Value -/
 def istr (i : Int) : List String := if i.natAbs > 2 ^ 53 then ["int_kind_tostring"] else []
